@@ -10,7 +10,8 @@ def prog(rng, n, ncl, pfail=0.25, preg=0.3, plog=0.3):
         if r < preg and ncl > 0:
             acts.append("r%d" % rng.randint(1, ncl))
         elif r < preg + pfail:
-            acts.append(rng.choice(FAILS))
+            f = rng.choice(FAILS)
+            acts.append(("W" + f) if rng.random() < 0.15 else f)
         elif r < preg + pfail + plog:
             acts.append("L%d" % rng.randint(0, 99))
     return ".".join(acts) if acts else "_"
@@ -42,7 +43,7 @@ def case(rng, ncomp=None, setup_fail=0.15, body_fail=0.3, iters=None):
 
 
 def features(casestr):
-    a = casestr.split()
+    a = casestr.replace("W", "").split()
     f = set()
     comps = a[2].split(";")
     if len(comps) > 1:
